@@ -168,6 +168,11 @@ PrintOK(r) ==
                         /\ r.kind \in {"println", "println0"} => r.nl
     /\ r.kind \notin {"println", "println0"} => ~r.nl
 
+\* The helpers on a tiny_std File over a kernel pipe whose peer moves the bytes in arbitrary
+\* pieces while signals interrupt the caller (real short transfers, real EINTR; no other error is
+\* possible): the call succeeds, every byte arrives once and in order, the count is the length.
+PipeOK(r) == r.ok = 1 /\ r.mismatch = -1 /\ r.rlen = r.len /\ r.count = r.len
+
 ---------------------------------------------------------------------------
 (* PART 2: the transcription *)
 CONSTANTS Grow(_, _),        \* Grow(len, cap): capacities Vec::reserve(32) may yield for a full vector
